@@ -24,7 +24,7 @@ Definition op_nums (x : op) : list N :=
   match x with
   | OAsgC cs | OCtorC cs | OAppC cs | OCmpC cs => [sz cs]
   | OAsgS x | OCtorS x | OAppS x | OSprintf x | OSprintfFail _ x | OCmpS x => [sz x]
-  | OAsgFs | OCtorMv | OCtorCp | OPop | OAppFs | OSwap | OClear | OCmpFs
+  | OAsgFs | OCtorMv | OCtorCp | OCtorFs | OPop | OAppFs | OSwap | OClear | OCmpFs
   | OFront | OBack | OLen | OEmpty | OStr | OEq | ONe | OItF | OItR => []
   | OInsNC i c ch => [i; c; ch]
   | OInsPC i cs k => [i; sz cs; k]
@@ -76,42 +76,54 @@ Ltac unb H :=
          end; try (match type of H with Forall _ [] => clear H end); unfold sz in *.
 
 Section All.
+(** capacity of the object and of the other object *)
 Variable L : N.
 Hypothesis HL : CapOk L.
+Variable Lo : N.
+Hypothesis HLo : CapOk Lo.
 
 Definition good (r : res (fs * fs * ret)) : Prop :=
-  exists s' o' v, r = Ok (s', o', v) /\ Inv L s' /\ Inv L o'.
+  exists s' o' v, r = Ok (s', o', v) /\ Inv L s' /\ Inv Lo o'.
 
-Lemma good_upd (o : fs) r : Inv L o -> safe L r -> good (upd o r).
+(** an operation that exists only between objects of the same type *)
+Lemma same_cap x : cap_ok (Lo =? L) x = true -> mixed_ok x = false -> Lo = L.
+Proof.
+  unfold cap_ok. destruct (N.eqb_spec Lo L); [auto|]. intros H1 H2. congruence.
+Qed.
+
+Lemma good_upd (o : fs) r : Inv Lo o -> safe L r -> good (upd o r).
 Proof. intros Ho (s' & -> & Hs'). unfold upd. cbn. exists s', o, RNone. auto. Qed.
 
 Lemma good_obs {A} s o (mk : A -> ret) r :
-  Inv L s -> Inv L o -> (okr r \/ exists e, r = Err e) -> good (obs s o mk r).
+  Inv L s -> Inv Lo o -> (okr r \/ exists e, r = Err e) -> good (obs s o mk r).
 Proof.
   intros Hs Ho [[a ->]|[e ->]]; cbn; eexists _, _, _; (split; [reflexivity|split; assumption]).
 Qed.
 
-Lemma good_obs_ok {A} s o (mk : A -> ret) r : Inv L s -> Inv L o -> okr r -> good (obs s o mk r).
+Lemma good_obs_ok {A} s o (mk : A -> ret) r : Inv L s -> Inv Lo o -> okr r -> good (obs s o mk r).
 Proof. intros. apply good_obs; auto. Qed.
 
 Lemma good_pair (o : fs) (r : res (fs * N)) :
-  Inv L o -> safe2 L r -> good (do q <- r; Ok (fst q, o, RIter (snd q))).
+  Inv Lo o -> safe2 L r -> good (do q <- r; Ok (fst q, o, RIter (snd q))).
 Proof.
   intros Ho (s' & a & -> & Hs'). cbn. eexists _, _, _. split; [reflexivity|split; assumption].
 Qed.
 
 Theorem step_safe s o x :
-  Inv L s -> Inv L o -> Bounded x -> pre_A s o x = true -> good (step L s o x).
+  Inv L s -> Inv Lo o -> Bounded x -> pre_A s o x = true -> cap_ok (Lo =? L) x = true ->
+  good (step L s o x).
 Proof.
-  intros Hs Ho HB Hpre. pose proof Hs as (Hb & Hl & Hz). pose proof Ho as (Hbo & Hlo & Hzo).
-  pose proof HL as [HL1 HL2].
+  intros Hs Ho HB Hpre Hcap. pose proof Hs as (Hb & Hl & Hz). pose proof Ho as (Hbo & Hlo & Hzo).
+  pose proof HL as [HL1 HL2]. pose proof HLo as [HLo1 HLo2].
+  pose proof (same_cap x Hcap) as Hsame.
   assert (Hcs : forall cs, cstrlen cs <= nlen cs) by apply cstrlen_le.
   destruct x; cbn [step]; unb HB; try (specialize (Hcs cs));
     try (apply good_upd; [assumption|]).
   (* assign / construct *)
   1-5: apply assign_arr_safe; rewrite ?nlen_carr, ?zero_fs_len; try assumption; lia.
-  - apply ctor_mv_safe; assumption.
-  - apply safe_ok; assumption.
+  - rewrite (Hsame eq_refl) in *. apply ctor_mv_safe; assumption.
+  - rewrite (Hsame eq_refl) in *. apply safe_ok; assumption.
+  - apply assign_arr_safe; rewrite ?zero_fs_len; try assumption; lia.
   (* insert *)
   - apply insert_nc_safe; assumption.
   - cbn [pre_A] in Hpre. apply insert_pc_safe; rewrite ?nlen_carr; try assumption; lia.
@@ -119,7 +131,7 @@ Proof.
   - apply insert_pc_safe; rewrite ?nlen_carr; try assumption; unfold M64 in *; lia.
   - apply insert_ss_safe; assumption.
   - apply insert_pc_safe; try assumption; unfold M64 in *; lia.
-  - apply insert_fss_safe; assumption.
+  - apply (insert_fss_safe L HL Lo); assumption.
   - apply good_pair; [assumption|]. apply insert_it_safe; [assumption|assumption|unfold M64; lia].
   - apply good_pair; [assumption|]. apply insert_it_safe; assumption.
   (* erase, push, pop *)
@@ -134,10 +146,10 @@ Proof.
   - apply append_impl_safe; rewrite ?nlen_carr; try assumption; unfold M64 in *; lia.
   - apply append_impl_safe; try assumption; unfold M64 in *; lia.
   - apply append_ss_safe; assumption.
-  - apply append_fss_safe; assumption.
+  - apply (append_fss_safe L HL Lo); assumption.
   - apply append_impl_safe; rewrite ?nlen_carr; try assumption; unfold M64 in *; lia.
   - apply append_impl_safe; rewrite ?nlen_carr; try assumption; unfold M64 in *; lia.
-  - cbn [pre_A] in Hpre. apply append_it_safe; try assumption; lia.
+  - rewrite (Hsame eq_refl) in *. cbn [pre_A] in Hpre. apply append_it_safe; try assumption; lia.
   - apply sprintf_safe; assumption.
   - apply sprintf_fail_safe; [assumption|assumption|apply glibc_partial_len; assumption].
   (* replace *)
@@ -149,7 +161,8 @@ Proof.
   - apply replace_impl_safe; rewrite ?nlen_carr; try assumption; unfold M64 in *; lia.
   - apply replace_nc_safe; assumption.
   (* swap, clear *)
-  - destruct (swap_safe L HL s o Hs Ho) as (s' & o' & E & Hs' & Ho'). rewrite E. cbn.
+  - unfold good. rewrite (Hsame eq_refl) in *.
+    destruct (swap_safe L HL s o Hs Ho) as (s' & o' & E & Hs' & Ho'). rewrite E. cbn.
     eexists _, _, _. split; [reflexivity|split; assumption].
   - apply clear_safe; assumption.
   (* compare *)
@@ -185,12 +198,13 @@ Proof.
   - eexists _, _, _. split; [reflexivity|split; assumption].
   - eexists _, _, _. split; [reflexivity|split; assumption].
   - apply good_obs_ok; try assumption. apply (str_okr L); assumption.
-  - apply good_obs_ok; try assumption. apply (eq_op_okr L); assumption.
-  - apply good_obs_ok; try assumption. apply (ne_op_okr L); assumption.
+  - apply good_obs_ok; try assumption. apply (eq_op_okr L Lo); assumption.
+  - apply good_obs_ok; try assumption. apply (ne_op_okr L Lo); assumption.
   - apply good_obs_ok; try assumption. apply iter_fwd_okr; assumption.
   - apply good_obs_ok; try assumption. apply iter_rev_okr; assumption.
   (* find family *)
   - apply good_obs_ok; try assumption. apply find_op_okr; try assumption.
+    { intros ->. rewrite (Hsame eq_refl) in *. assumption. }
     destruct k; cbn [fneedle_ok]; unb HB; cbn [pre_A] in Hpre; auto; try lia.
   (* iterator stepping *)
   - apply good_obs_ok; try assumption.
@@ -198,13 +212,14 @@ Proof.
     rewrite E. apply okr_ok.
 Qed.
 
-(** a scripted history: steps outside the caller contract are skipped (the
-    harness and the driver print "ood" for them) *)
+(** a scripted history: steps outside the caller contract, and operations that
+    do not exist for the two capacities, are skipped (the harness and the driver
+    print "ood" for them) *)
 Fixpoint run (s o : fs) (ops : list op) : res (fs * fs * list ret) :=
   match ops with
   | [] => Ok (s, o, [])
   | x :: rest =>
-      if pre_A s o x then
+      if pre_A s o x && cap_ok (Lo =? L) x then
         do r <- step L s o x;
         let '(s', o', v) := r in
         do q <- run s' o' rest;
@@ -214,14 +229,15 @@ Fixpoint run (s o : fs) (ops : list op) : res (fs * fs * list ret) :=
   end.
 
 Theorem run_safe ops : forall s o,
-  Inv L s -> Inv L o -> Forall Bounded ops ->
-  exists s' o' vs, run s o ops = Ok (s', o', vs) /\ Inv L s' /\ Inv L o'.
+  Inv L s -> Inv Lo o -> Forall Bounded ops ->
+  exists s' o' vs, run s o ops = Ok (s', o', vs) /\ Inv L s' /\ Inv Lo o'.
 Proof.
   induction ops as [|x rest IH]; intros s o Hs Ho HB; cbn [run].
   - eexists _, _, _. split; [reflexivity|split; assumption].
   - apply Forall_cons_iff in HB. destruct HB as [Hx Hrest].
-    destruct (pre_A s o x) eqn:Hpre; [|apply IH; assumption].
-    destruct (step_safe s o x Hs Ho Hx Hpre) as (s1 & o1 & v & E & Hs1 & Ho1).
+    destruct (pre_A s o x && cap_ok (Lo =? L) x) eqn:Hpre; [|apply IH; assumption].
+    apply andb_true_iff in Hpre. destruct Hpre as [Hpre Hcap].
+    destruct (step_safe s o x Hs Ho Hx Hpre Hcap) as (s1 & o1 & v & E & Hs1 & Ho1).
     rewrite E. cbn [bind].
     destruct (IH s1 o1 Hs1 Ho1 Hrest) as (s2 & o2 & vs & E2 & Hs2 & Ho2).
     rewrite E2. cbn [bind]. eexists _, _, _. split; [reflexivity|split; assumption].
